@@ -2,6 +2,7 @@
    {"id": <same id>, "r": <result>}  or  {"id":..., "err": "<driver error>"}  -/
 import DW.Driver.Strings
 import DW.Driver.Core
+import DW.Driver.Caches
 
 open Lean DW.Driver
 
@@ -12,6 +13,7 @@ def dispatch (j : Json) : Except String Json := do
   | "dump" => handleDump j
   | "load" => handleLoad j
   | "loadv1" => handleLoadV1 j
+  | "caches" => handleCaches j
   | x => throw s!"unknown op {x}"
 
 def handleLine (line : String) : String :=
